@@ -104,6 +104,16 @@ CLAIMED = {
    text="For every number of operators and every list of time specifications, the Lean theorem `aligned` shows that an entry of the array returned by compute_correlations_nt is NaN exactly when the steps at its indices are not time ordered and otherwise is the value computed for exactly those steps; `axes_grid` shows the returned axes are start+dt*step of the parsed steps, `parse_interval`/`parse_list`/`parse_in_range` cover intervals in either direction and lists in any order, `anti_index`/`anti_conj` cover the anti ordering, `dt_governs` that the dt labelling the axes is the dt of the propagators. The arithmetic of _parse_times, the mask/index write-back shape, the order test and the dt keyword plumbing are regenerated from the source on every run, so the proofs break when the code changes (they did on the four repaired defects). The control flow of the model is compared with the real code on every int/slice/short list/float/interval spec over grids N<=4 (quick) / N<=6 (thorough) and on every pair of distinct parsed step lists (N<=3 / N<=5), ordered and anti, plus sampled 3-4 operator calls, with bit-exact axes and per-entry step tuples; unmodified runs with a time-dependent system confirm the value tagging.",
    ref="§4 C07",
    note=TB + "tagged stand-in for _compute_ordered_nt_correlations (cross-checked by unwrapped runs); binary64 model without overflow/NaN, dt != 0; numpy/CPython indexing semantics checked by enumeration only; values abstract (contraction correctness is C03/C18), Hermiticity preservation assumed in anti_conj (C04); NOT shown: bath_dynamics kernels / displaced-oscillator closed form."),
+ "C08": dict(
+   technique="Lean 4 proof (exact multilinearity / adjointness by induction, dual numbers) + translator (GradWiring) + exact-rational tensor correspondence",
+   text="The objective of state_gradient is modelled as target x prod(steps) x rho0 over an arbitrary commutative ring. For every number of steps, bond dimension and number of environments it is proved that replacing any half-step propagator P_k by P_k+Delta changes Z by exactly the contraction of the adjoint tensor (forward tensor x MPO x specification backward tensor) with Delta. Over the dual numbers K[eps] the eps-coefficient of Z equals the value _chain_rule computes. For one and two environments the tensors the code builds (axis numbers, leg swaps, environment order of the backward pass, edge bookkeeping, chain-rule wiring - all regenerated from the source on every run) are proved equal to the specification ones. The theorem for two non-commuting environments needs the backward pass to visit the environments in reversed order, which exposed and now guards the order defect. The reported dynamics are proved equal to compute_dynamics' contraction. Every run also compares the real state_gradient's states, stored forward/backward/adjoint tensors and final gradient with the model on random hand-built process tensors to 1e-9.",
+   ref="§4 C08",
+   note=TB + "tensornetwork's `@`/reorder_edges axis conventions (pinned numerically by the correspondence); scipy expm and numdifftools enter as given arrays (their accuracy is not shown); code=spec proved for 1-2 environments; controls not modelled."),
+ "C11": dict(
+   technique="Lean 4 proof on an imaginary-time path-sum model + translator fragment GibbsLoop + exact-rational correspondence with the real TIBaseBackend/GibbsTempo",
+   text="The Gibbs backend is modelled as a path sum over system basis states whose propagator orientations, stored-array orientation, factor formulas, coefficient cells, loop bound and thermal integrands are regenerated from the source on every run. Proved for all dimensions and step counts: diagonal Hamiltonians give diagonal Boltzmann-type states with exponent (summed Matsubara cells = eta(n dtau)-eta(0)) independent of the number of steps; at zero coupling the stored state is q^(2k)=expm(-k dtau H) for any (complex Hermitian) H, which only type-checks if the source stores the transposed backend arrays; trace one after normalisation, Hermiticity by path reversal; compute() is idempotent from any object state; the eta integrand at tau=1/T is beta J/omega and the large-frequency fall-back is accurate to O(exp(-omega/T)) also in imaginary time. The correspondence ships the real propagator and factor tables as exact rationals and compares dynamics, get_state, backend.data (identity and random initial arrays), coefficient cells, summed cells vs direct quadrature, time step, labels and counters after repeated compute() calls; hypotheses of the theorems are evaluated on the real tensors.",
+   ref="§4 C11",
+   note=TB + "modelled not verified: np.exp homomorphism, scipy expm(-H dtau/2), QUADPACK returning the integral, float time arguments denoting grid points, SVD truncation at epsrel 1e-13. Not shown: positivity, continuity in coupling strength, index wiring of the MPS contraction (correspondence only)."),
  "C13": dict(
    technique="Lean 4 proof over a model regenerated from source (translator) + differential correspondence",
    text=("Step-count and label expressions of all APIs are regenerated from the source into Lean on every run; "
